@@ -197,9 +197,17 @@ def run_property(modname, tier, seed, workers=None):
                 rp = json.load(f)
             if hasattr(spec, "accepts") and not spec.accepts(rp["case"]):
                 continue   # a replay of this property's other tier
-            try:
-                out = spec.run_case(rp["case"], tier)
-            except runner.Inconclusive:
+            out = None
+            # a known finding that depends on residual timing gets three chances to show itself again
+            for _attempt in range(3 if fn.startswith("known-") else 1):
+                try:
+                    out = spec.run_case(rp["case"], tier)
+                except runner.Inconclusive:
+                    out = None
+                    continue
+                if out.violation is not None or not fn.startswith("known-"):
+                    break
+            if out is None:
                 continue
             reg_stats["replayed"] += 1
             v = out.violation
